@@ -101,6 +101,53 @@ def target_get_mock_data():
     return (f"{UTIL}:{qual}", UTIL, qual, run)
 
 
+def target_get_mock_circuits():
+    qual = "get_mock_circuits"
+
+    def run(sess: Session):
+        rec = []
+        ns = {"_parse_identity": lambda s: (("ID-of", s), {"drift": ("drift-of", s), "seed": ("seed-of", s)}),
+              "generate_mock_circuits": lambda ident, **kw: rec.append((ident, kw)) or "CIRCUITS"}
+        O.load(UTIL, [qual], ns)
+        out = ns[qual]("spec")
+        sess.check("post", [], z3.BoolVal(out == "CIRCUITS" and rec == [(("ID-of", "spec"), {"drift": ("drift-of", "spec"), "seed": ("seed-of", "spec")})]), 0,
+                   label="get_mock_circuits(s) == generate_mock_circuits(ID, **kwargs) with (ID, kwargs) = _parse_identity(s)")
+    return (f"{UTIL}:{qual}", UTIL, qual, run)
+
+
+def target_parse_identity():
+    """_parse_identity('<ID:key=value,...>' without the brackets): the identifier is what precedes the last ':' (when that colon is
+    not inside a circuit description code), every documented key is converted with its documented type, an unknown key is refused"""
+    qual = "_parse_identity"
+
+    def run(sess: Session):
+        ns = {"map": map, "max": max, "str": str, "int": int, "float": float, "KeyError": KeyError}
+        O.load(UTIL, [qual], ns)
+        fn = ns[qual]
+        cases = {
+            "CIRCUIT_1": ("CIRCUIT_1", {}),
+            "CIRCUIT_2:noise=5": ("CIRCUIT_2", {"noise": 5.0}),
+            "CIRCUIT_2:noise=0.5,seed=7": ("CIRCUIT_2", {"noise": 0.5, "seed": 7}),
+            "CIRCUIT_3 : num_per_decade=3 , log_max_f=4, log_min_f=-1.5, drift=4.0": ("CIRCUIT_3 ", {"num_per_decade": 3, "log_max_f": 4.0, "log_min_f": -1.5, "drift": 4.0}),
+            "R{R=1:lbl}": ("R{R=1:lbl}", {}),
+            "R{R=1:lbl}(RC):seed=3": ("R{R=1:lbl}(RC)", {"seed": 3}),
+        }
+        for spec, want in cases.items():
+            try:
+                got = fn(spec)
+            except Exception as ex:  # noqa
+                got = ("raised", type(ex).__name__)
+            ok = got == want and all(type(got[1][k]) is type(want[1][k]) for k in want[1]) if isinstance(got, tuple) and len(got) == 2 and isinstance(got[1], dict) else False
+            sess.check("post", [], z3.BoolVal(bool(ok)), 0, label=f"_parse_identity({spec!r}) == {want!r} (values converted to their documented types)")
+        refused = False
+        try:
+            fn("CIRCUIT_1:colour=3")
+        except KeyError:
+            refused = True
+        sess.check("post", [], z3.BoolVal(refused), 0, label="an unknown keyword is refused (KeyError)")
+    return (f"{UTIL}:{qual}", UTIL, qual, run)
+
+
 def target_parse_command():
     qual = "command"
 
@@ -353,4 +400,4 @@ def target_cli_purity():
 
 def targets():
     from . import forwarding
-    return [forwarding.target_cli_wrappers(), target_cli_purity(), target_apply_filters(), target_get_mock_data(), target_parse_command(), target_fit_command(), target_simulate(), target_drt_command("individual_plots"), target_drt_command("overlay_plot")]
+    return [forwarding.target_cli_wrappers(), target_cli_purity(), target_apply_filters(), target_get_mock_data(), target_get_mock_circuits(), target_parse_identity(), target_parse_command(), target_fit_command(), target_simulate(), target_drt_command("individual_plots"), target_drt_command("overlay_plot")]
